@@ -306,7 +306,9 @@ UC_COUNT = [
     "fold('n_done', CJL()) == old(fold('n_done', CJL())) + len(canceled_jobs)",
     "fold('n_sub', CJL()) == old(fold('n_sub', CJL())) + len(canceled_jobs)",
 ]
-UC_COMMON = UC_COUNT + ["subset(NC(), ghost.collected)",
+# results stay within the submission's job names: a canceled job is one of the cluster's jobs; collected rows obey E-res (process_results)
+ERES = "implies(old(subset(ghost.collected, ghost.universe)) and subset(nameset(CJL()), ghost.universe), subset(ghost.collected, ghost.universe))"
+UC_COMMON = UC_COUNT + [ERES, "subset(NC(), ghost.collected)",
              "subset(old(ghost.collected), ghost.collected) and subset(old(ghost.collected_failed), ghost.collected_failed)"] + UC_JOBS + UC_CANCELED
 UC_PENDING = [
     # results of the jobs canceled in the previous pass, not yet folded into newly_completed
@@ -325,7 +327,7 @@ contract("HpcSubmitter._update_completed_jobs", file=F,
                  # C04 (no stale blocker): once a pass ends without a cancel, no not-submitted job waits for a name that has an outcome
                  f"need_to_rerun or forall(m, range(NCJ()), implies(CJL()[m].state == {NS_}, forall(x, CJL()[m].blocked_by, x not in NC())))",
              ]},
-             2: {"invariant": [
+             2: {"invariant": [ERES,
                  "subset(NC(), ghost.collected)", "subset(loop_old(newly_completed), NC())",
                  "forall(i, range(_k2), _it2[i].name in NC())",
                  "subset(failed_jobs, NC())", "forall(x, failed_jobs, x in ghost.collected_failed)",
@@ -343,6 +345,7 @@ contract("HpcSubmitter._update_completed_jobs", file=F,
              ]},
          },
          ensures=[
+             ERES,
              "subset(result[0], ghost.collected)",
              "subset(old(ghost.collected), ghost.collected) and subset(old(ghost.collected_failed), ghost.collected_failed)",
          ] + [c.replace("NC()", "result[0]").replace("canceled_jobs", "result[1]") for c in UC_JOBS + UC_CANCELED + UC_COUNT] + [
@@ -408,7 +411,7 @@ contract("HpcSubmitter._update_status", file=F,
              "0 <= CFG().completed_jobs and CFG().completed_jobs <= CFG().submitted_jobs and CFG().submitted_jobs <= CFG().num_jobs and CFG().num_jobs == NJ()",
              "CFG().completed_jobs == fold('n_done', JL())", "CFG().submitted_jobs == fold('n_sub', JL())",
              "forall(i, range(NJ()), implies(JL()[i].state != JobState.NOT_SUBMITTED, empty(JL()[i].blocked_by)))",
-             "not ghost.cluster_lock",
+             "not ghost.cluster_lock", "Inv_handle(self._cluster)",
              # whenever a batch was made, something completed or the active ids changed, the status IS persisted (C01/C11)
              "implies(len(submitted_jobs) > 0 or not empty(completed_job_names) or len(blocked_jobs) > 0, "
              "js_mirrored(self._cluster) and cfg_mirrored(self._cluster) and val(self._cluster._job_status).batch_index == self._batch_index "
@@ -476,6 +479,10 @@ contract("HpcSubmitter.run", file=F,
              "MARKER(self) not in ghost.fs",
              # C14: cancel is final - a canceled submission never hands another batch to the scheduler
              "implies(old(CFG().is_canceled), ghost.runs == old(ghost.runs))",
+             # what the CLI callback relies on after a round (C10, C05): a well-formed promoted handle, no lock, flags untouched, results only for configured jobs
+             "not ghost.cluster_lock", "Inv_handle(self._cluster)", "self._cluster.g_promoted",
+             "CFG().is_complete == old(CFG().is_complete) and CFG().pipeline_stage_num == old(CFG().pipeline_stage_num)",
+             "implies(old(subset(ghost.collected, ghost.universe)) and subset(nameset(JL()), ghost.universe), subset(ghost.collected, ghost.universe))",
          ],
          raises={
              # C11: a failing status query happens before anything is handed over or written; the next round starts from the same state
